@@ -289,6 +289,28 @@ def check_case(case, d, part):
             bad("image-wcs", "file %d image wcs %r expected %r" % (i, wcs_sig(img.wcs), wcs_sig(w)))
         if getattr(dsc, "collection_id", None) != paths[i] or getattr(img, "collection_id", None) != paths[i]:
             bad("order", "file %d collection ids %r/%r" % (i, getattr(dsc, "collection_id", None), getattr(img, "collection_id", None)))
+    # what the tilers do with a collection (they put every description, and every image, into the parity they
+    # need - in place), then the same collection object inspected again: it still reports the files' own contents
+    try:
+        with quiet():
+            for dsc in descs:
+                dsc.flip_parity()
+            for img in imgs:
+                img.flip_parity()
+            descs2 = list(coll.descriptions())
+            imgs2 = list(coll.images())
+    except Exception as e:
+        bad("raises-on-second-inspection:%s" % type(e).__name__, repr(e))
+        return
+    for i in range(min(n, len(descs2), len(imgs2))):
+        data, w = expected(paths[i], exp_idx[i], exp_key[i])
+        if wcs_sig(descs2[i].wcs) != wcs_sig(w) or tuple(descs2[i].shape) != data.shape:
+            bad("description-after-use", "file %d: after the descriptions handed out earlier were flipped by a consumer, descriptions() reports wcs %r shape %r; the file has %r %r" % (i, wcs_sig(descs2[i].wcs), tuple(descs2[i].shape), wcs_sig(w), data.shape))
+            break
+        a2 = imgs2[i].asarray()
+        if wcs_sig(imgs2[i].wcs) != wcs_sig(w) or a2.shape != data.shape or not np.array_equal(a2, data):
+            bad("image-after-use", "file %d: after the images handed out earlier were flipped by a consumer, images() no longer yields the file's pixels / WCS" % i)
+            break
 
 
 def gen_cases(tier):
